@@ -38,7 +38,7 @@ CONFIGS = {
                             StepsBack="{1}", WithRtcp="TRUE", MaxLen=4, MaxSent=4)),
         # more live streams than the context high-water mark + 60 s silences: the documented idle-context eviction
         # (the model relaxes the demand after an eviction; what a never-forgetting receiver would accept is EXT)
-        ("idle/churn", conf(Ssrcs="{1, 2, 3}", SeqAlpha="{15, 0}", StartIdx="{16}", StepsFwd="{1}", StepsBack="{}",
+        ("idle/churn", conf(Ssrcs="{1, 2, 3}", SeqAlpha="{15, 0, 1}", StartIdx="{16}", StepsFwd="{1}", StepsBack="{}",
                             WithTick="TRUE", MaxLen=5, MaxSent=4)),
     ],
     ("C04", "thorough"): [
@@ -47,7 +47,7 @@ CONFIGS = {
                                  MaxLen=6, MaxSent=5)),
         ("multi/rtcp", conf(Ssrcs="{1, 2, 3}", SeqAlpha="{0, 1, 14, 15}", StartIdx="{15}", StepsFwd="{1, 2}",
                             StepsBack="{1}", WithRtcp="TRUE", MaxLen=5, MaxSent=5)),
-        ("idle/churn", conf(Ssrcs="{1, 2, 3}", SeqAlpha="{15, 0}", StartIdx="{16}", StepsFwd="{1}", StepsBack="{}",
+        ("idle/churn", conf(Ssrcs="{1, 2, 3}", SeqAlpha="{15, 0, 1}", StartIdx="{16}", StepsFwd="{1}", StepsBack="{}",
                             WithTick="TRUE", MaxLen=7, MaxSent=5)),
     ],
     ("C05", "quick"): [
@@ -100,15 +100,19 @@ SIM = {
                                MaxLen=16, MaxSent=8), 30, 200)],
 }
 
-INVARIANTS = "TypeOK SenderAgreement IndexAgreement NoPhantomIndex Rejected RtcpAccepted"
+INVARIANTS = "TypeOK SenderAgreement IndexAgreement NoPhantomIndex NoLossByEviction Rejected RtcpAccepted"
+# configurations that describe the pinned code's open deviation generate with it switched on (and without the invariant
+# it breaks): their expectations then match the code, and the replayer reports the property-level consequence
+OPEN_DEV = {"idle/churn": ("EvictLosesState", "NoLossByEviction"), "churn": ("EvictLosesState", "NoLossByEviction")}
 PROPERTIES = "ForgeUnchanged AcceptanceStable RejectIsNoop IndexMonotone"
 
 
-def write_cfg(path, c, emit, deviations="{}", props='{"C04", "C05", "EXT"}', emit_op="EmitEdge"):
+def write_cfg(path, c, emit, deviations="{}", props='{"C04", "C05", "EXT"}', emit_op="EmitEdge", drop_inv=None):
     lines = ["SPECIFICATION Spec", "CONSTANTS"]
     for k, v in c.items():
         lines.append(f"  {k} = {v}")
-    lines += [f"  Deviations = {deviations}", f"  Props = {props}", "VIEW view", f"INVARIANTS {INVARIANTS}",
+    inv = " ".join(i for i in INVARIANTS.split() if i != drop_inv)
+    lines += [f"  Deviations = {deviations}", f"  Props = {props}", "VIEW view", f"INVARIANTS {inv}",
               f"PROPERTIES {PROPERTIES}", f"ACTION_CONSTRAINT {emit_op if emit else 'NoEmit'}", "CHECK_DEADLOCK FALSE", ""]
     with open(path, "w") as f:
         f.write("\n".join(lines))
@@ -119,7 +123,8 @@ def gen_edges(ck, pid, tier, label, consts, emit_op="EmitEdge", **tlc_kw):
     (or, with EmitFinal under -simulate, one per behaviour)."""
     safe = label.replace("/", "_")
     cfg = os.path.join(vlib.SPEC, f"MC_Srtp_{pid}_{tier}_{safe}.gen.cfg")
-    write_cfg(cfg, consts, emit=True, emit_op=emit_op)
+    dev, drop = OPEN_DEV.get(label, (None, None))
+    write_cfg(cfg, consts, emit=True, emit_op=emit_op, deviations='{"%s"}' % dev if dev else "{}", drop_inv=drop)
     edges = os.path.join(ck.dir, f"edges_{tier}_{safe}.ndjson")
     try:
         res = vlib.tlc("MC_Srtp", os.path.basename(cfg), tags=("EDGE",), sinks={"EDGE": edges},
@@ -265,6 +270,16 @@ def run(pid, tier, rule_text, assumptions, bits="few"):
         total_edges += summ["edges"]
         for k, v in summ.items():
             tot[k] = tot.get(k, 0) + v
+    if pid == "C04":
+        # sender-side counterpart of the idle-context eviction (fixed scenario, real 33 streams; see design note)
+        out = os.path.join(ck.dir, "txprobe.ndjson")
+        p = vlib.run_bin("srtp", ["txprobe", out], timeout=300)
+        if p.returncode != 0:
+            raise vlib.ToolError(f"srtp txprobe failed: {p.stderr[-1000:]}")
+        rows = vlib.read_ndjson(out)
+        classify(ck, pid, rows, "txprobe")
+        ck.cov["txprobe"] = [r for r in rows if r.get("type") == "txprobe"]
+        _rm(out)
     ck.cov["traces_validated_against_impl"] = total_edges
     ck.cov["evaluations"] = tot.get("evaluations", 0)
     ck.cov["distinct_nontrivial"] = total_nt
@@ -301,7 +316,8 @@ SELF_DEV = {
                                  ForgeOffsets="{1, 7, 9}", MaxLen=3), ("ForgeUnchanged", "AcceptanceStable")),
     "RtcpIndexBeforeAuth": (conf(StepsFwd="{1}", WithRtcp="TRUE", RtcpForgeKinds='{"reindex", "wrongkey"}', MaxLen=3),
                             ("ForgeUnchanged",)),
-    "TableBeforeAuth": (CONFIGS[("C05", "quick")][2][1], ("ForgeUnchanged", "AcceptanceStable")),
+    "TableBeforeAuth\", \"EvictLosesState": (CONFIGS[("C05", "quick")][2][1], ("ForgeUnchanged", "AcceptanceStable")),
+    "EvictLosesState": (CONFIGS[("C04", "quick")][3][1], ("NoLossByEviction",)),
 }
 
 
@@ -310,12 +326,12 @@ def selftest(pid):
     ck = vlib.Check(pid + "-selftest", "quick")
     # (i) each deviation-on model violates the rule it is about
     for dev, (consts, broken) in SELF_DEV.items():
-        cfg = os.path.join(vlib.SPEC, f"MC_Srtp_selftest_{dev}.gen.cfg")
+        cfg = os.path.join(vlib.SPEC, "MC_Srtp_selftest_%s.gen.cfg" % dev.replace('", "', "_"))
         # only the rules of the property the deviation is about are switched on (Props), so the reported
         # violation is one of that listed property, not of an EXT rule
-        props = '{"C04"}' if dev == "EstimateSlack" else '{"C05"}'
+        props = '{"C04"}' if dev in ("EstimateSlack", "EvictLosesState") else '{"C05"}'
         write_cfg(cfg, consts, emit=False, deviations='{"%s"}' % dev, props=props)
-        res = vlib.tlc("MC_Srtp", os.path.basename(cfg), timeout=900, workers=4, tag=f"srtp_self_{dev}", heap="3g")
+        res = vlib.tlc("MC_Srtp", os.path.basename(cfg), timeout=900, workers=4, tag="srtp_self_" + dev.replace('", "', "_"), heap="3g")
         os.remove(cfg)
         hit = [b for b in broken if any(b in e for e in res["errors"])]
         print(f"selftest: Deviations={{{dev}}} violates {hit or 'NOTHING'} (expected one of {list(broken)})")
